@@ -19,9 +19,11 @@ DrawParticles::DrawParticles(std::unique_ptr<StateModel> state_model) noexcept :
 
 
 DrawParticles::DrawParticles(std::unique_ptr<StateModel> state_model, std::unique_ptr<ExogenousModel> exogenous_model) noexcept :
-    state_model_(std::move(state_model)),
-    exogenous_model_(std::move(exogenous_model))
-{ }
+    state_model_(std::move(state_model))
+{
+    /* The exogenous model is owned and used by the state model. */
+    state_model_->add_exogenous_model(std::move(exogenous_model));
+}
 
 
 DrawParticles::DrawParticles(DrawParticles&& prediction) noexcept :
